@@ -19,6 +19,10 @@ PASS_THROUGH = {
     "From::from": 0,
     "Clone::clone": 0,
     "IntoFuture::into_future": 0,
+    "Pin::new_unchecked": 0,
+    "Pin::new": 0,
+    "Pin::as_mut": 0,
+    "Future::poll": 0,
     "core::hint::must_use": 0,
 }
 
@@ -272,7 +276,7 @@ def _generic_payload(ty, variant):
 
 def call_success_guards(body, call_block):
     """Gates on the result of the call at call_block."""
-    t = body.term(call_block)
+    t = body.call_term(call_block)
     return gates_of_value(body, t["dest"][0])
 
 
@@ -526,3 +530,263 @@ def _flat_index(fb, like_blk, orig_idx):
         if fb.origin[i] == fn and fb.callsite[i] == inst and fb.origin_blk[i] == orig_idx:
             return i
     return None
+
+
+ADDR_TY = "protocol::address::Address"
+MAP_LOOKUPS = ("get", "get_mut", "get_key_value", "contains_key", "entry", "peek", "remove", "get_or_insert_with")
+
+
+def inbound_enum(prog):
+    """the server's inbound message enum, by role: an enum with a variant carrying (bytes, Address) and a variant carrying bytes only.
+    Returns (item, addressed_variants, plain_variants)."""
+    for it in prog.items:
+        if it["k"] != "enum":
+            continue
+        addressed = [v["name"] for v in it["variants"] if len(v["fields"]) == 2 and "BytesMut" in v["fields"][0][1] and ADDR_TY in v["fields"][1][1]]
+        plain = [v["name"] for v in it["variants"] if len(v["fields"]) == 1 and "BytesMut" in v["fields"][0][1]]
+        if addressed and plain:
+            return it, addressed, plain
+    return None, [], []
+
+
+def variant_bindings(b, enum_def, variants=None):
+    """local -> (variant, field index) for locals bound from a payload field of `enum_def` (pattern bindings)"""
+    out = {}
+    for blk in b.rpo():
+        for s in b.stmts(blk):
+            if s["k"] != "assign" or s["rv"]["k"] not in ("use", "ref"):
+                continue
+            p = op_place(s["rv"]["op"]) if s["rv"]["k"] == "use" else s["rv"]["p"]
+            if not p:
+                continue
+            dc = [e for e in p[1] if e[0] == "downcast"]
+            fl = [e for e in p[1] if e[0] == "field"]
+            if dc and fl and (variants is None or dc[-1][1] in variants):
+                ty = b.local_ty(p[0])
+                if last_seg(enum_def) in ty:
+                    out[s["p"][0]] = (dc[-1][1], fl[-1][1])
+    return out
+
+
+def partial_key_caches(prog, crate_prefix="octo_squirrel_server"):
+    """Lookups in a map whose value carries a socket address (host AND port) while the key derives from the host name alone: the port of
+    an earlier flow / datagram is substituted for the port of this one. Returns [(body, block, term, map type, reason)]."""
+    out = []
+    for b in prog.prod_bodies():
+        if not b.defp.startswith(crate_prefix):
+            continue
+        for (blk, c, t) in b.calls():
+            if c.method not in MAP_LOOKUPS or not t["args"]:
+                continue
+            rp = op_place(t["args"][0])
+            mty = b.local_ty(rp[0]) if rp is not None else (c.self_s or "")
+            if not any(m in mty for m in ("HashMap<", "BTreeMap<", "LruCache<")) or "SocketAddr" not in mty:
+                continue
+            if len(t["args"]) < 2:
+                continue
+            kp = op_place(t["args"][1])
+            if kp is None:
+                continue
+            seen, calls, consts = b.slice_back([kp[0]])
+            # which parts of an Address does the key derive from?
+            parts = set()
+            whole = False
+            for l in seen:
+                for d in b.defs().get(l, []):
+                    if d[0] != "assign":
+                        continue
+                    for o in b.operands_of_rvalue(d[3]["rv"]):
+                        pp = op_place(o)
+                        if pp is None:
+                            continue
+                        proj = pp[1]
+                        # the field taken right after a downcast to the name-carrying address variant (`Address::Domain(host, port)`)
+                        hit = False
+                        for i, e in enumerate(proj):
+                            if e[0] == "downcast" and e[1] == "Domain" and i + 1 < len(proj) and proj[i + 1][0] == "field":
+                                parts.add(proj[i + 1][1])
+                                hit = True
+                        if hit or ADDR_TY not in b.local_ty(pp[0]):
+                            continue
+                        if not [e for e in proj if e[0] == "field"] and l != pp[0] and ADDR_TY not in b.local_ty(l):
+                            whole = True     # the whole address went into a non-address value (to_string, hash ..)
+            if parts and not whole and 1 not in parts:
+                udp = any("Udp" in str(e[1]) for blk2 in b.rpo() for s2 in b.stmts(blk2) if s2["k"] == "assign"
+                          for o2 in (b.operands_of_rvalue(s2["rv"]) + [{"copy": s2["p"]}]) if op_place(o2) for e in op_place(o2)[1] if e[0] == "downcast") or \
+                    any(s2["k"] == "assign" and s2["rv"]["k"] == "agg" and "Udp" in str(s2["rv"].get("variant")) for blk2 in b.rpo() for s2 in b.stmts(blk2)) or \
+                    any("Udp" in l["ty"].get("s", "") for l in b.locals)
+                out.append((b, blk, t, mty, "the key derives from the host name only (field 0 of Address::Domain) while the value is a SocketAddr with a port", "udp" if udp else "tcp"))
+    return out
+
+
+def first_item_handlers(prog, crate_prefix="octo_squirrel_server"):
+    """The server code that handles the first decoded message of a flow, by role: its flat view binds the payload of an addressed variant of
+    the inbound enum and dials TcpStream::connect. Returns (enum item, addressed variants, [(flat body, bindings)]) — innermost bodies only."""
+    enum_it, addressed, plain = inbound_enum(prog)
+    if enum_it is None:
+        return None, [], []
+    cands = []
+    for b in prog.prod_bodies():
+        if not b.defp.startswith(crate_prefix) or "::_" in b.defp:
+            continue
+        fb = prog.flat(b.defp)
+        if not any(c.name == "TcpStream::connect" for (_, c, _) in fb.calls()):
+            continue
+        binds = variant_bindings(fb, enum_it["path"], addressed)
+        if binds:
+            cands.append((fb, binds))
+    byroot = {}
+    for fb, binds in cands:
+        if fb.root not in byroot or fb.n < byroot[fb.root][0].n:
+            byroot[fb.root] = (fb, binds)
+    inner = [v for v in byroot.values() if not any(w[0].root in {prog.body(o).root for o in v[0].origin} and w[0].root != v[0].root for w in byroot.values())]
+    return enum_it, addressed, (inner or list(byroot.values()))
+
+
+def outermost(prog, bodies):
+    """of the candidate bodies keep those that are not spliced into another candidate's flat view (a helper extracted from an anchor
+    function is analysed inside the anchor, not as an anchor of its own)"""
+    defs = {b.defp for b in bodies}
+    inner = set()
+    for b in bodies:
+        fb = prog.flat(b.defp)
+        for o in set(fb.origin):
+            if o != b.defp and o in defs:
+                inner.add(o)
+    return [b for b in bodies if b.defp not in inner]
+
+
+def accept_blocks(fb):
+    """accepting returns of a decoder, also when the accept was moved into a helper that the flat view splices in:
+    blocks that build `Ok(Some(..))` (Result<Option<..>> functions) / `Ok(..)` of the function's own result type into a value that is, or
+    flows unchanged into, the return place"""
+    rty = fb.local_ty(0)
+    want_some = "Option<" in rty.split("Result<", 1)[-1][:60]
+    out = []
+    for blk in fb.rpo():
+        for s in fb.stmts(blk):
+            if s["k"] != "assign" or s["p"][1] or s["rv"]["k"] != "agg" or s["rv"].get("variant") != "Ok" or not s["rv"].get("def", "").endswith("result::Result"):
+                continue
+            dst = s["p"][0]
+            if dst != 0:
+                if fb.local_ty(dst) != rty:
+                    continue
+                fwd, _, _ = fb.slice_fwd([dst])
+                if 0 not in fwd:
+                    continue
+            if want_some:
+                p = op_place(s["rv"]["ops"][0]) if s["rv"]["ops"] else None
+                if p is None or not _local_is_some(fb, p[0]):
+                    continue
+            out.append(blk)
+    return out
+
+
+def err_only(prog, body, blk):
+    return flat_err_only(prog, body, blk) if getattr(body, "is_flat", False) else err_return_reachable_only(body, blk)
+
+
+def decoder_shaped(b):
+    """False for a pure check helper: a function whose result carries no data (`Result<(), _>`, `Result<bool, _>`, `bool`, `()`, an integer)"""
+    rt = b.local_ty(0)
+    payload = rt
+    if "Result<" in rt:
+        payload = rt.split("Result<", 1)[1].split(",", 1)[0].strip()
+    return payload not in ("()", "bool", "u8", "u16", "u32", "u64", "usize")
+
+
+def lift_to_decoders(prog, cands, depth=3):
+    """A check (timestamp, type byte, salt lookup ..) may sit in a helper that a decoder calls. The unit the rules are about is the decode
+    step: a function returning Result<Option<_>>. Candidates that are not decoder-shaped are replaced by their (transitive) callers that are."""
+    callers = {}
+    for b in prog.prod_bodies():
+        for (blk, c, t) in b.calls():
+            cb = prog.body(c.target)
+            if cb is not None:
+                callers.setdefault(cb.root, set()).add(b.root)
+    out, seen = {}, set()
+    work = [(b.root, 0) for b in cands]
+    while work:
+        r, d = work.pop()
+        if r in seen:
+            continue
+        seen.add(r)
+        rb = prog.body(r)
+        if rb is None:
+            continue
+        if decoder_shaped(rb) or d >= depth or not callers.get(r):
+            out[r] = rb
+            continue
+        for c in callers[r]:
+            if c != r:
+                work.append((c, d + 1))
+    return sorted(out.values(), key=lambda b: b.defp)
+
+
+def _same_instance(fb, a, b):
+    return fb.origin[a] == fb.origin[b] and fb.callsite[a] == fb.callsite[b]
+
+
+def _ok_return_blocks(body):
+    """blocks of a (non-flat) body that put a non-Err value into the return place"""
+    rv = returns_variant(body)
+    out = [b for b, v in rv.items() if v not in ("Err", "residual")]
+    if not out and "Result<" not in body.local_ty(0):
+        out = body.return_blocks()
+    return out
+
+
+def _lift_through_call(prog, fb, blk):
+    """the chain of call-site blocks (flat indices) from the instance `blk` lives in up to the root: [(callsite flat block), ...]"""
+    chain = []
+    cur = blk
+    while fb.callsite[cur] is not None:
+        cur = fb.callsite[cur]
+        chain.append(cur)
+    return chain
+
+
+def edge_dom(prog, body, src, dst, site):
+    """`site` is only reachable through the CFG edge src->dst. In a flat body this is decided modularly when the edge lies in a spliced
+    callee: the edge must dominate every non-Err return of that callee (in the callee's own body), and the call must be success-gated
+    (`?` / Ok arm) with that success edge dominating the site — recursively up the splice chain."""
+    if not getattr(body, "is_flat", False) or _same_instance(body, src, site):
+        return body.edge_dominates(src, dst, site)
+    if body.edge_dominates(src, dst, site):
+        return True
+    f = prog.body(body.origin[src])
+    osrc = body.origin_blk[src]
+    odst = body.origin_blk[dst] if body.origin[dst] == body.origin[src] and body.callsite[dst] == body.callsite[src] else None
+    if odst is None:
+        return False
+    oks = _ok_return_blocks(f)
+    if not oks or not all(f.edge_dominates(osrc, odst, r) for r in oks):
+        return False
+    cs = body.callsite[src]
+    if cs is None:
+        return False
+    return succ_dom(prog, body, cs, site)[0]
+
+
+def succ_dom(prog, body, call_blk, site, need_levels=None):
+    """flat-aware success_edge_dominates (see edge_dom)"""
+    if not getattr(body, "is_flat", False) or _same_instance(body, call_blk, site):
+        return success_edge_dominates(body, call_blk, site, need_levels)
+    ok, why = success_edge_dominates(body, call_blk, site, need_levels)
+    if ok:
+        return ok, why
+    f = prog.body(body.origin[call_blk])
+    ob = body.origin_blk[call_blk]
+    oks = _ok_return_blocks(f)
+    if not oks:
+        return False, "the helper has no successful return"
+    for r in oks:
+        ok2, why2 = success_edge_dominates(f, ob, r, need_levels)
+        if not ok2:
+            return False, f"inside {last_seg(f.defp)} a successful return is reachable without passing the check ({why2})"
+    cs = body.callsite[call_blk]
+    if cs is None:
+        return False, why
+    ok3, why3 = succ_dom(prog, body, cs, site)
+    return ok3, (f"checked inside {last_seg(f.defp)}, whose success edge dominates the site" if ok3 else
+                 f"the result of {last_seg(f.defp)} (which contains the check) is not success-gated before the site: {why3}")
